@@ -42,8 +42,8 @@ SEQS = {"a": "ACGT", "ba": "GGCC", "c": "TTAA", "fasta1": "CAGT", "a.v2": "CCAT"
 
 
 # every run unpickles fresh molecular-type objects (the virtual executor hands arguments and results over as pickles, like a
-# real pool does), and the library keeps each of them in a module-level registry: workers are replaced after a few shards
-MAX_TASKS_PER_CHILD = 4
+# real pool does), and the library keeps each of them in a module-level registry: every shard gets a fresh worker
+MAX_TASKS_PER_CHILD = 1
 
 
 def bounds(tier):
